@@ -1438,3 +1438,62 @@ Proof.
   destruct (s_store (run E h)) as [pg|]; [|congruence].
   destruct Hinv as [g0 [Hw [Hp [H|H]]]]; [congruence|]. rewrite Hm in H. inversion H; subst. auto.
 Qed.
+
+(* only a cleanup tick or the member's own LeaveGroup removes a member *)
+Lemma c43_only_cleanup_or_leave_removes E s o n0 n1 g g' k :
+  inv E s -> cur s n0 = Some g -> In k (keys g) ->
+  cur (fst (step E s o)) n1 = Some g' ->
+  In k (keys g') \/ (exists now, o = Leave k now) \/ (exists now, o = Cleanup now).
+Proof.
+  intros Hinv Hc Hin Hc'.
+  assert (forall now gl, load s now = Some gl -> In k (keys gl)) as Hview.
+  { intros now gl Hl. rewrite <- (same_view_keys g gl); [exact Hin|]. eapply cur_same_view; eauto. }
+  assert (forall s1 gm, s_mem s1 = Some gm -> cur s1 n1 = Some g' -> g' = gm) as Hmem.
+  { intros s1 gm Hm Hcc. unfold cur, load in Hcc. rewrite Hm in Hcc. congruence. }
+  assert (forall now, load s now <> None) as Hsome.
+  { intros now Hn. unfold cur in Hc. destruct (load_spec E s n0 Hinv) as [[Hn0 _]|[g0 [Hl0 [_ [Hst0 _]]]]]; [congruence|].
+    destruct (load_spec E s now Hinv) as [[_ [_ Hs0]]|[g1 [Hl1 _]]]; congruence. }
+  destruct o as [mid fresh sess reb topics now|mid gen now|mid gen now|mid now|mid gen t p off now|now|]; cbn [step] in Hc'.
+  - left. destruct (load_spec E s now Hinv) as [[Hl _]|[gl [Hl [Hwf _]]]]; [exfalso; now apply (Hsome now)|].
+    rewrite Hl in Hc'.
+    destruct (join_g_spec E gl mid fresh sess reb topics now (or_introl Hwf)) as [g5 [e [ms [Heq [Hw5 [_ [_ [_ [_ [_ [Hkeys _]]]]]]]]]]].
+    rewrite Heq in Hc'. cbn in Hc'. rewrite commit_group_eq in Hc' by assumption.
+    assert (g' = g5) by (first [now inversion Hc' | eapply Hmem; [|exact Hc']; reflexivity]). subst.
+    apply Hkeys. right. eapply Hview; eauto.
+  - left. destruct (load_spec E s now Hinv) as [[Hl _]|[gl [Hl [Hwf _]]]]; [exfalso; now apply (Hsome now)|].
+    rewrite Hl in Hc'. pose proof (sync_g_spec E gl mid gen Hwf) as Hp.
+    destruct (sync_g E gl mid gen) as [g2 r|g2 r|r]; cbn in Hp, Hc'; try contradiction.
+    + destruct r; try contradiction. destruct Hp as [-> _].
+      assert (g' = gl) by (first [now inversion Hc' | eapply Hmem; [|exact Hc']; reflexivity]). subst. eapply Hview; eauto.
+    + destruct r; try contradiction. destruct Hp as [Hw2 [_ [_ [_ [_ [_ [_ [Hm2 _]]]]]]]].
+      rewrite commit_group_eq in Hc' by assumption.
+      assert (g' = g2) by (first [now inversion Hc' | eapply Hmem; [|exact Hc']; reflexivity]). subst.
+      unfold keys. rewrite Hm2. eapply Hview; eauto.
+  - left. destruct (load_spec E s now Hinv) as [[Hl _]|[gl [Hl [Hwf _]]]]; [exfalso; now apply (Hsome now)|].
+    rewrite Hl in Hc'. pose proof (heartbeat_g_spec E gl mid gen now Hwf) as Hp.
+    destruct (heartbeat_g gl mid gen now) as [g2 r|g2 r|r]; cbn in Hp, Hc'; try contradiction.
+    + destruct r; try contradiction. destruct Hp as [-> _].
+      assert (g' = gl) by (first [now inversion Hc' | eapply Hmem; [|exact Hc']; reflexivity]). subst. eapply Hview; eauto.
+    + destruct r; try contradiction. destruct Hp as [Hw2 [_ [_ [_ [_ [_ [_ [Hs2 _]]]]]]]].
+      rewrite commit_group_eq in Hc' by assumption.
+      assert (g' = g2) by (first [now inversion Hc' | eapply Hmem; [|exact Hc']; reflexivity]). subst.
+      rewrite keys_subs, Hs2, <- keys_subs. eapply Hview; eauto.
+  - destruct (Z.eq_dec mid k) as [->|Hne]; [right; left; eauto|]. left.
+    destruct (load_spec E s now Hinv) as [[Hl _]|[gl [Hl [Hwf _]]]]; [exfalso; now apply (Hsome now)|].
+    rewrite Hl in Hc'. pose proof (leave_g_spec E gl mid now Hwf) as Hp.
+    destruct (leave_g gl mid now) as [g2 r|g2 r|r]; cbn in Hp, Hc'.
+    + destruct r; try contradiction. destruct Hp as [-> _].
+      assert (g' = gl) by (first [now inversion Hc' | eapply Hmem; [|exact Hc']; reflexivity]). subst. eapply Hview; eauto.
+    + destruct r; try contradiction. destruct Hp as [Hw2 [_ [_ [_ [_ Hk2]]]]].
+      rewrite commit_group_eq in Hc' by assumption.
+      assert (g' = g2) by (first [now inversion Hc' | eapply Hmem; [|exact Hc']; reflexivity]). subst.
+      apply Hk2. split; [eapply Hview; eauto|congruence].
+    + unfold cur, load in Hc'. cbn in Hc'. discriminate.
+  - left. destruct (load_spec E s now Hinv) as [[Hl _]|[gl [Hl [Hwf _]]]]; [exfalso; now apply (Hsome now)|].
+    rewrite Hl in Hc'. cbn in Hc'.
+    assert (g' = gl) by (first [now inversion Hc' | eapply Hmem; [|exact Hc']; reflexivity]). subst. eapply Hview; eauto.
+  - right. right. eauto.
+  - left. destruct (c15_view_preserved E s n0 n1 g Hinv Hc) as [g2 [Hc2 [Hv _]]].
+    change (cur (failover s) n1 = Some g') in Hc'. rewrite Hc' in Hc2. inversion Hc2; subst.
+    now rewrite <- (same_view_keys _ _ Hv).
+Qed.
